@@ -1601,6 +1601,16 @@ class TypeSystem:  # noqa: PLR0904
             sub_class: subclass
         """
         self._graph.add_edge(super_class, sub_class)
+        # The cached answers of the graph-based queries may be stale now.
+        for cached_query in (
+            self.get_subclasses,
+            self.get_superclasses,
+            self.is_subclass,
+            self.is_subtype,
+            self.is_maybe_subtype,
+            self.subtype_distance,
+        ):
+            cached_query.cache_clear()
 
     @functools.lru_cache(maxsize=1024)
     def get_subclasses(self, klass: TypeInfo) -> OrderedSet[TypeInfo]:
